@@ -26,7 +26,7 @@ CLAIMED = {
  "C09": ("fault_enumeration", SIM + "Byzantine store between encoder and validating/non-validating decoders; enumerated single-fault set plus seeded multi-fault sampling; independent wire-format model as oracle",
          "Every named malformation of a point encoding (flag manipulation, non-reduced coordinate, flag bits in later coordinates, off-curve, wrong subgroup, x without y, malformed identity, wrong form, substituted element) and a flip in every byte (every bit in thorough) is delivered to both decoders for identity, generator and multiples in both groups and both forms; validating decode must accept exactly the byte strings the independent format model calls canonical and return the point the model parses.",
          "Trusts the replica's curve equation / subgroup test by double-and-add as the base of the model; the format facts (flag bits, coordinate order, ordering on Montgomery representatives) are written down independently in sim/wire.hpp.", "5/C09", True),
- "C10": ("exploration", SIM + "every sampler and every scheme operation reads a simulator-owned random stream that serves fair bytes, boundary values and rejection storms and records each request; M-sample re-derives value, number and sizes of requests; hash-to-curve re-walked candidate by candidate; bounded-liveness watchdog on the rejection loops; platform independence by replica comparison",
+ "C10": ("exploration", SIM + "every sampler and every scheme operation reads a simulator-owned random stream that serves fair bytes, boundary values and rejection storms and records each request; M-sample re-derives value, number and sizes of requests; hash-to-curve re-walked candidate by candidate; bounded-liveness watchdog on the rejection loops; storms of rejected candidates with the call made on a small-stack thread; initialisation order as a schedule dimension (hash-to-scalar entry points called ahead of the library's dynamic initialisers); platform independence by replica comparison",
          "Samplers must return the first accepted candidate of the stream (so an off-by-one acceptance test shows as one extra/missing request), results below the modulus, generators non-identity in the subgroup and equal to cofactor times the selected point; every sampler returns within scripted+256 requests; hash clauses (pure) are checked on boundary and random inputs and across replicas.", TB, "5/C10", True),
  "C11": ("exploration", SIM + "seeded delegation histories (keygen, qualify, non-delegable variants, adjust, resample, marshalling restarts) over slot patterns {free, fixed, hidden}^l on seed-chosen replicas and views; M-wkd tracks the exact randomness of every key from the controlled stream and predicts every key component",
          "After every key-producing step the key must equal the model key component for component (a0, a1, bsig, ascending free-slot list with h_i^rho), satisfy the pairing equation, and it and the master key must decrypt a fresh ciphertext for exactly the accumulated pattern; attribute lists are generated from the parent's pattern so that they are exactly the documented-permitted ones.", TB, "5/C11-C14", True),
@@ -41,14 +41,14 @@ CLAIMED = {
          "Go bindings are represented by a C++ re-implementation of lang/go/*/marshal.go (no Go toolchain). " + TB, "5/C15,C17", True),
  "C16": ("exploration", SIM + "PKG, sender and receiver as simulated parties; the caller's hash and random callbacks are simulator-owned stubs that record every byte; master scalar, keys and ciphertexts cross the store with bit flips; negative variants (other identity, other master, substituted or damaged ciphertext)",
          "Sender and receiver must feed the hash stub identical bytes equal to compressed(Q)||compressed(rP)||GT-bytes(e(Q,[r][s]P)) with r from M-sample; secret key = [s]Q by the reference path also for unreduced master scalars; requested length forwarded unchanged; negative variants must change the hashed bytes.", TB, "5/C16", True),
- "C17": ("fault_enumeration", SIM + "every delivered buffer (valid, truncated to each length, extended, bit-flipped, element-substituted, random junk 1..4096 bytes) x {compressed, uncompressed} x {validating, not} goes to length discovery and unmarshal in exact-size heap blocks under ASan+UBSan(no-recover, incl. alignment); all scenario histories of the other properties also run in that flavour; dead workers are classified by their sanitizer report",
-         "No sanitizer report, and every accepted buffer yields an object that marshals again into a buffer of its own reported length; slot arrays are sized exactly as the Go wrapper sizes them.",
+ "C17": ("fault_enumeration", SIM + "every delivered buffer (valid, truncated to each length, extended, bit-flipped, element-substituted, random junk 1..4096 bytes) x {compressed, uncompressed} x {validating, not} goes to length discovery and unmarshal in exact-size heap blocks under ASan+UBSan(no-recover, incl. alignment); all scenario histories of the other properties also run in that flavour; guard mode places every caller object flush against an inaccessible page on the assembly replicas (assembly is invisible to the sanitizers); dead workers are classified by their sanitizer report",
+         "No sanitizer report, and every accepted buffer yields an object that marshals again into a buffer of its own reported length; slot arrays are sized exactly as the Go wrapper sizes them, or (adjustments, one in four) to exactly the final slot count.",
          "Sanitizers see only what executes; uninitialised-value use is not covered (MSan unusable with the uninstrumented libstdc++). " + TB, "5/C15,C17", True),
- "C19": ("other", "ABI/constant tables evaluated inside every replica (static facts, not simulation) + " + SIM + "view refinement: every history executed through the C API and through the C++ API on the same replica with the same stream, event logs must be identical",
+ "C19": ("other", "ABI/constant tables evaluated inside every replica (static facts, not simulation) + " + SIM + "view refinement: every history executed through the C API and through the C++ API on the same replica with the same stream, event logs (results, random-stream consumption, which requests were filled in the caller's own output object, whether an exception thrown by a callback reaches the caller) must be identical",
          "Layout, alignment, member offsets, coefficient count and exported constants compared in 64- and 32-bit-word, asm and portable replicas; every C function the adapter reaches returns what the C++ operation returns on all arguments the scenarios generate (C API symbols the adapter does not reach are listed in the evidence).",
          "The ABI table is a compile-time fact reported at run time; AArch64/ARMv6-M not covered.", "5/C19", True),
  "C20": ("exploration", SIM + "2-6 real caller threads under a serialising seeded scheduler preempting at a guarded yield hook inside every field multiplication and at the random/hash callbacks; M-solo refinement; mprotect write trap on the replicas' writable image and on shared inputs; libc allocation trap; link-surface audit of the static library built the shipped way (static, not simulation)",
-         "Concurrent execution on shared read-only inputs and distinct outputs must give exactly the outputs of running each script alone; any write to library static storage or to a shared input (objects reloaded from durable bytes, attribute lists in the library's own format) after load is a deterministic SIGSEGV; in WKD-IBE histories a const input list that differs after a call is a violation; failing schedules are reported as an explicit, minimised list of preemption decisions; the archive's undefined symbols must be memory primitives and compiler arithmetic helpers in five build configurations (clang/gcc x asm/portable x 64/32-bit words).",
+         "Concurrent execution on shared read-only inputs and distinct outputs must give exactly the outputs of running each script alone; any write to library static storage or to a shared input (objects reloaded from durable bytes, attribute lists in the library's own format) after load is a deterministic SIGSEGV; in WKD-IBE histories a const input list that differs after a call is a violation; failing schedules are reported as an explicit, minimised list of preemption decisions; every field-arithmetic primitive is called twice into differently filled outputs and must give the same bytes; the archive's undefined symbols (weak ones included) must be memory primitives and compiler arithmetic helpers in eight build configurations (clang/gcc x asm/portable x 64/32-bit words, the Makefile's embedded flag set -Os -fno-builtin -fshort-enums with both compilers, -O0).",
          "Data races that leave results intact and touch only caller memory the harness did not mark shared are invisible (a serialising scheduler gives TSan nothing to see). Writable-but-never-written static storage is reported in the evidence, not as a violation.", "5/C20 and 15.3-15.4", True),
 }
 
